@@ -27,6 +27,9 @@ declare -A PROP=(
  ["open/close GetPositions applies the read mask"]="C14"
  ["open/close PullPositions delivers updates"]="C14"
  ["enter/leave Pull no longer strips occupant"]="C07"
+ ["open/close PullPositions applies the read mask to a copy"]="C07"
+ ["wrap guards the stream's close error"]="C11"
+ ["open/close PullPositions lists positions"]="C14"
 )
 git -C /repo log --format='%h %s' | grep ' fix: ' | while read -r h subj; do
   prop=""
